@@ -1,10 +1,11 @@
 (** Extraction of the group "alloc" (C10, C09) to OCaml (ExtrOcamlBasic only).
     vp.py runs coqc on this file in .cache/ocaml/alloc/: writes model.ml / model.mli there. *)
 From Coq Require Extraction ExtrOcamlBasic.
-From DivanV Require Import Base.Res Base.ExtractPrelude Model.Tally Model.Profiler.
+From DivanV Require Import Base.Res Base.ExtractPrelude Model.Tally Model.Profiler Model.Record.
 Extraction Language OCaml.
 Set Extraction KeepSingleton.
 Extraction "model.ml" extraction_prelude
   run run_ev tmap_run proj
   tally_sb tally_sb_why ev_sb ev_sb_why no_overflow all_ops ops_since_clear kind_of
-  run_prof run_prof_trace op_of_req prof_sb prof_sb_why release_sb release_sb_why.
+  run_prof run_prof_trace op_of_req prof_sb prof_sb_why release_sb release_sb_why
+  rec_run record_sb record_sb_why record_guard tallies_empty map_get.
